@@ -194,7 +194,7 @@ impl TopicBuiltinTopicData {
 pub struct PublicationBuiltinTopicData {
     #[dust_dds(id=PID_ENDPOINT_GUID as u32, key)]
     pub(crate) key: BuiltInTopicKey,
-    #[dust_dds(id=PID_PARTICIPANT_GUID as u32, key)]
+    #[dust_dds(id=PID_PARTICIPANT_GUID as u32)]
     pub(crate) participant_key: BuiltInTopicKey,
     #[dust_dds(id=PID_TOPIC_NAME as u32)]
     pub(crate) topic_name: _String,
@@ -337,7 +337,7 @@ impl PublicationBuiltinTopicData {
 pub struct SubscriptionBuiltinTopicData {
     #[dust_dds(id=PID_ENDPOINT_GUID as u32, key)]
     pub(crate) key: BuiltInTopicKey,
-    #[dust_dds(id=PID_PARTICIPANT_GUID as u32, key)]
+    #[dust_dds(id=PID_PARTICIPANT_GUID as u32)]
     pub(crate) participant_key: BuiltInTopicKey,
     #[dust_dds(id=PID_TOPIC_NAME as u32)]
     pub(crate) topic_name: _String,
